@@ -61,10 +61,20 @@ def run(name, checks):
         raise SystemExit("/repo is not clean")
     r = sh(["git", "-C", REPO, "apply", os.path.join(d, "patch.diff")])
     if r.returncode != 0:
-        meta.setdefault("checks", {})["_apply"] = r.stdout[-300:]
-        json.dump(meta, open(os.path.join(d, "meta.json"), "w"), indent=1)
-        print(name, "patch does not apply:", r.stdout[-200:])
-        return
+        # later "fix:" commits moved or changed nearby lines: the same edit with context fuzz (a hunk that still does not
+        # fit means the fix rewrote the very code the change edits - the change is then superseded, not missed)
+        r2 = sh(["patch", "-p1", "-F3", "-s", "--no-backup-if-mismatch", "-d", REPO, "-i", os.path.join(d, "patch.diff")])
+        rej = sh(["git", "-C", REPO, "ls-files", "--others", "--exclude-standard"]).stdout.split()
+        if r2.returncode != 0 or any(x.endswith(".rej") for x in rej):
+            sh(["git", "-C", REPO, "checkout", "--", "."])
+            for x in rej:
+                if x.endswith((".rej", ".orig")):
+                    os.remove(os.path.join(REPO, x))
+            meta.setdefault("checks", {})["_apply"] = (r.stdout + r2.stdout)[-300:]
+            json.dump(meta, open(os.path.join(d, "meta.json"), "w"), indent=1)
+            print(name, "patch does not apply:", r.stdout[-200:])
+            return
+        meta["applied_with_fuzz"] = True
     try:
         for c in checks:
             t0 = time.time()
